@@ -201,6 +201,7 @@ def width(ck, ctx):
 
 
 def run(ck, ctx):
+    C.adapter_census(ck, ctx, "width", ("progress_fancy::", "terminal::"))
     F = ctx.F
     width(ck, ctx)
     n = G.str_cuts(ck, ctx, "char-boundary")
